@@ -1458,13 +1458,17 @@ private:
    */
   QUILL_ATTRIBUTE_HOT void _cleanup_invalidated_loggers()
   {
-    if (_logger_manager.has_invalidated_loggers())
+    if (!_logger_manager.has_invalidated_loggers())
     {
-      // Flush the sinks before a removed logger is destroyed: a sink that outlives the logger
-      // (the user or another logger keeps a reference) would otherwise keep the logger's last
-      // statements buffered with no logger left through which flush_log() could reach it
-      _flush_and_run_active_sinks(false, std::chrono::milliseconds{0});
+      // Nothing to clean up. Returning here also makes sure that a logger which is removed by a
+      // frontend thread right after this check is not destroyed below without the flush
+      return;
     }
+
+    // Flush the sinks before a removed logger is destroyed: a sink that outlives the logger
+    // (the user or another logger keeps a reference) would otherwise keep the logger's last
+    // statements buffered with no logger left through which flush_log() could reach it
+    _flush_and_run_active_sinks(false, std::chrono::milliseconds{0});
 
     // since there are no messages we can check for invalidated loggers and clean them up
     std::vector<std::string> const removed_loggers = _logger_manager.cleanup_invalidated_loggers(
